@@ -167,7 +167,7 @@ pub fn nthreads() -> usize {
 }
 
 /// Explore every execution of every configuration with at most `bound` deviations.
-pub fn explore_round<H: Harness>(h: &H, bound: u32, deadline: Option<Instant>) -> RoundResult {
+pub fn explore_round(h: &dyn Harness, bound: u32, deadline: Option<Instant>) -> RoundResult {
     let start = Instant::now();
     let queue = Queue {
         q: Mutex::new((0..h.n_configs()).map(|i| (i, Vec::new())).collect()),
@@ -222,8 +222,8 @@ pub fn explore_round<H: Harness>(h: &H, bound: u32, deadline: Option<Instant>) -
 }
 
 #[allow(clippy::too_many_arguments)]
-fn dfs<H: Harness>(
-    h: &H,
+fn dfs(
+    h: &dyn Harness,
     cfg: usize,
     prefix: Vec<u16>,
     bound: u32,
